@@ -1,17 +1,20 @@
 //! Harness binary `h_rdv <PROP> --seed S --tier T [--count N] [--replay F]`.
 //! One module per property (`cNN.rs`, `pub fn run(args: &hcore::Args, out: &mut hcore::Out)`).
+mod c51;
+
+// `Instant::now()` (and therefore futures-timer) follows `hcore::warp`.
+hcore::install_clock!();
 
 fn main() {
     let args = hcore::Args::parse();
     hcore::quiet_panics();
     let mut out = hcore::Out::new();
     match args.prop.as_str() {
+        "C51" => c51::run(&args, &mut out),
         p => {
-            let _ = &mut out;
             eprintln!("h_rdv: unknown property {p}");
             std::process::exit(2);
         }
     }
-    #[allow(unreachable_code)]
     out.flush();
 }
